@@ -52,6 +52,10 @@ CLAIMS = {
    text='Partial: the soft clipper\'s degenerate-argument guard dominates every store; inside the per-channel loop all sample subscripts are multiples of the stride C from base _x+c, declip_mem is touched only at [c] and no scalar carries over between channel iterations (channel independence); the decoder gain is read only by its ctl arms and by one region of opus_decode_frame whose only effects are stores into pcm samples (non-interference with return value, final range and state); the soft_clip flag only selects clipper call vs zeroing its memory. Output range, pass-through exactness, sign preservation and the gain value are NOT decided (numeric).',
    note=TRUST,
    technique='control-dependence region effects (non-interference), stride-form subscript rule, may-stale dataflow inside the channel loop, dominance guards'),
+ 'C03': dict(category='translation_validation',
+   text='Partial (table conformance only): every normative PDF / codebook / constant table that RFC 6716 prints (read from the xml2rfc source shipped in doc/, an oracle written independently of the C tables) equals the evaluated C initialiser after the per-entry transform (pdf->icdf, transposition, sub-table offsets, bit-field layout) - 163 translated tables; the ec_sel bit layout used to read the NLSF selection tables; the binding of each decoder function\'s iCDF call sites to those tables; the fs/frame-size selectors of silk_decoder_set_fs against the RFC rows; decoder reachability and coverage of the mapped tables. This is exactly the class "a changed table entry that keeps encoder and decoder mutually consistent". PCM within tolerance of the reference decoder, final range, filters, MDCT, resampler and transitions are NOT decided (numeric).',
+   note=TRUST + 'doc/draft-ietf-codec-opus.xml as the oracle (its two known misprints - the 12-entry trim PDF and the row label "g" - are handled by reading the celt_symbols row and by positional rows). spec/c03_sites.json binds decoder functions to table sets.',
+   technique='translation validation of constant tables against the RFC text + points-to resolution of table arguments + decision-table extraction (path feasibility under enumerated valuations)'),
 }
 
 NA_REASON = {
